@@ -53,7 +53,7 @@ class Result:
             return
         self.viol[fp] = {"detail": detail, "case": case, "cmd": cmd, "n": 1}
 
-    def merge_lines(self, lines, cmd=None, viol_filter=None):
+    def merge_lines(self, lines, cmd=None, viol_filter=None, fp_suffix=None):
         """Parse harness protocol lines.
         EV name n          counter += n
         MAX name n         counter = max
@@ -87,7 +87,10 @@ class Result:
                     if why:
                         self.discarded[why] = self.discarded.get(why, 0) + 1
                         continue
-                self.add_viol(fp.strip(), detail.replace("\\n", "\n"), case=case, cmd=cmd)
+                fp = fp.strip()
+                if fp_suffix is not None and case is not None:
+                    fp += fp_suffix(case)   # a static feature of the case's input, used only to identify listed known findings
+                self.add_viol(fp, detail.replace("\\n", "\n"), case=case, cmd=cmd)
             elif ln.startswith("NOTE "):
                 if len(self.notes) < 20:
                     self.notes.append(ln[5:])
@@ -172,7 +175,7 @@ def run_shard(exe, args, start, count, env=None, timeout=600, progress=True):
 
 
 def run_sharded(res, exe, args, total, env=None, nshards=None, timeout=900, crash_is_violation=True,
-                crash_fp_prefix="crash", viol_filter=None):
+                crash_fp_prefix="crash", viol_filter=None, fp_suffix=None):
     """Run `total` cases over up to NCPU processes. Crashes become violations with fingerprint
     crash:<signal>:<sanitizer summary or 'nosummary'>."""
     nshards = nshards or min(NCPU, max(1, total))
@@ -195,7 +198,7 @@ def run_sharded(res, exe, args, total, env=None, nshards=None, timeout=900, cras
         shutil.rmtree(run_tmp, ignore_errors=True)
     if True:
         for lines, crashes in results:
-            res.merge_lines(lines, cmd=" ".join([exe] + [str(a) for a in args]), viol_filter=viol_filter)
+            res.merge_lines(lines, cmd=" ".join([exe] + [str(a) for a in args]), viol_filter=viol_filter, fp_suffix=fp_suffix)
             for case, sig, err, cmd in crashes:
                 if sig == "timeout":
                     res.discarded["watchdog"] = res.discarded.get("watchdog", 0) + 1
@@ -208,6 +211,8 @@ def run_sharded(res, exe, args, total, env=None, nshards=None, timeout=900, cras
                 if not crash_is_violation:
                     continue
                 fp = "%s:%s:%s" % (crash_fp_prefix, sig, san_summary(err) or "nosummary")
+                if fp_suffix is not None:
+                    fp += fp_suffix(case)
                 res.add_viol(fp, "case=%d %s\n%s" % (case, sig, err[-3000:]), case=case, cmd=cmd)
 
 
